@@ -7,6 +7,7 @@ labrea objects) and ref.py (term -> reference semantics).
 
 Leaves
   ('val', v)                         Value(v)
+  ('raw', v)                         the plain python constant v, in a position that accepts MaybeEvaluatable
   ('opt', key)                       Option(key)
   ('opt', key, D)                    Option(key, default=D)       D a term; ('tmpl', s, {}) is passed as str
   ('optf', key, v)                   Option(key, default_factory=lambda: v)
@@ -91,7 +92,7 @@ def key(term):
 def children(t):
     """Direct sub-terms (for static analyses: mentioned keys, node classes)."""
     k = t[0]
-    if k in ("val", "all", "fn", "optf"):
+    if k in ("val", "raw", "all", "fn", "optf"):
         return []
     if k == "opt":
         return [t[2]] if len(t) > 2 else []
